@@ -271,5 +271,45 @@ def run_cli(argv, cwd=None):
         logging.disable(logging.NOTSET)
 
 
+class scandir_order:
+    """context manager: os.scandir (hence os.walk and os.listdir-free code paths) returns names sorted ascending ('asc'),
+    descending ('desc') or as the file system gives them (None) -- the enumeration order is not part of any property"""
+    def __init__(self, order):
+        self.order = order
+
+    def __enter__(self):
+        self.real = os.scandir
+        order, real = self.order, self.real
+        if order is None:
+            return self
+
+        class _SD:
+            def __init__(self, it):
+                self.it = it
+                self.items = sorted(it, key=lambda de: de.name, reverse=(order == 'desc'))
+
+            def __enter__(self):
+                return self
+
+            def __exit__(self, *a):
+                self.it.close()
+
+            def __iter__(self):
+                return self
+
+            def __next__(self):
+                if not self.items:
+                    raise StopIteration
+                return self.items.pop(0)
+
+            def close(self):
+                self.it.close()
+        os.scandir = lambda p='.': _SD(real(p))
+        return self
+
+    def __exit__(self, *a):
+        os.scandir = self.real
+
+
 def emit(result):
     json.dump(result, sys.stdout, default=str)
